@@ -197,7 +197,7 @@ func ruleOU5(c *Ctx) {
 		if e.To == c.F.Anchors["readEvents"] || e.To == c.F.Anchors["appendEvents"] || e.To == c.F.Anchors["replaceEventsAtomically"] || e.Kind == "lock-callback" {
 			return true
 		}
-		return e.To == lg || e.To == ed || c.F.isLockFn(e.To) || strings.HasPrefix(e.To.Name(), "Parse") || e.To.Name() == "applySetUpdates"
+		return e.To == lg || c.loaderKind(e.To) != "" || e.To == ed || c.F.isLockFn(e.To) || strings.HasPrefix(e.To.Name(), "Parse") || e.To.Name() == "applySetUpdates"
 	})
 	nSites, nFn := 0, 0
 	for _, fn := range c.Fns {
@@ -759,7 +759,7 @@ func arithDerives(v, src ssa.Value) bool {
 // ------------------------------------------------------------------ OU11
 
 func init() {
-	register(&Rule{ID: "OU11", Min: 3, Run: ruleOU11,
+	register(&Rule{ID: "OU11", Min: 1, Run: ruleOU11,
 		Doc: "repeat-count-nonnegative: the count handed to strings.Repeat in the renderers is provably not negative (a constant, a length, a sum of such, a value clamped by `if x < k { x = k }` / max(x, k), or used only on the branch where it was compared positive): a negative count panics, and a panic in list/show on an unusual but valid log (a very long id, a narrow terminal) breaks 'every command terminates with output or an error message'"})
 }
 
